@@ -38,6 +38,10 @@ pub fn configs(thorough: bool) -> Vec<(CfCfg, bool)> {
         v.push((CfCfg::new(3, 2, 2, fps3.clone(), vec![1, 0, 1], Some(2), 0, false), false));
         v.push((CfCfg::new(2, 2, 3, vec![1, 2, 6, 7], vec![1, 0, 1, 1], Some(2), 0, false), false));
     }
+    // four buckets (index masking, alternate = i1 ^ offset with offsets up to 3), two fingerprints
+    for alt in [vec![1u64, 2], vec![3, 0], vec![2, 3]] {
+        v.push((CfCfg::new(2, 4, 2, vec![1, 3], alt, Some(2), 0, false), false));
+    }
     v
 }
 
